@@ -36,7 +36,7 @@ func stopHistory(c *core.Ctx, idx int) (*hist.History, []*hist.Table) {
 // blocked and the master far ahead, the library's reader has far more to hand
 // over than any plausible read-ahead buffer holds, so the "reader is holding
 // an event" states are reached however the hand-off is implemented.
-const longHistBase = 1000
+const longHistBase = 1 << 30
 
 func longHistory(r *core.Rng, idx int) (*hist.History, []*hist.Table) {
 	cb := allCombos()[r.Intn(24)]
